@@ -544,6 +544,65 @@ def field_upper_bound(p, x):
     return best
 
 
+def check_intdiv(ctx, fb):
+    """R19-5: the integer quotient and remainder (circom's `\\` and `%`) are taken on the WHOLE 256-bit values in both evaluators:
+    b == 0 -> 0, otherwise a div b / a rem b of the canonical integers; no other case distinction (a shortcut on the size of one
+    operand that looks at a limb of the other gives wrong results for multi-limb operands)"""
+    n = 0
+    for fn in ("eval_fr", "eval"):
+        it = fb.need(G + "Operation::" + fn)
+        ctx.touch(it)
+        eng = Engine(fb, inline=lambda i: False)
+        arms = {}
+        for p in eng.run(it):
+            sel = [v for a, v in p.conds() if a == ("d", P(1))]
+            if not sel or sel[0][0] != "eq":
+                continue
+            opn = OPS[sel[0][1]]
+            if opn in ("Idiv", "Mod"):
+                arms.setdefault(opn, []).append(p)
+        for opn in ("Idiv", "Mod"):
+            ps = arms.get(opn, [])
+            why = None
+            nz = 0
+            for p in ps:
+                if p.kind != "return":
+                    why = "a panic is reachable"
+                    break
+                others = [(a, v) for a, v in p.conds() if a != ("d", P(1))]
+                rv = eng.value_of(p.store, p.ret)
+                zero_tests = [(a, v) for a, v in others if a[0] == "b" and isinstance(a[1], tuple) and (
+                    (a[1][0] == "call" and a[1][1].endswith("::is_zero") and a[1][2] == (P(3),)) or
+                    (a[1][0] in ("eq", "bin") and P(3) in a[1] and "ZERO" in sh(a[1], 300)))]
+                if len(zero_tests) != 1 or len(others) != 1:
+                    why = "the arm distinguishes cases by %s, specification only `b == 0`" % [(sh(a, 70), v) for a, v in others][:3]
+                    break
+                a_, v_ = zero_tests[0]
+                is_zero = v_ if not (a_[1][0] == "bin" and a_[1][1] == "Ne") else (not v_)
+                if is_zero:
+                    if not (("zero" in sh(rv, 80).lower()) or cint(rv) == 0):
+                        why = "for b == 0 the result is %s, specification 0" % sh(rv, 80)
+                    continue
+                nz += 1
+                A, B = (call(G + "fr_to_u256", P(2)), call(G + "fr_to_u256", P(3))) if fn == "eval_fr" else (P(2), P(3))
+                core = rv[2][0] if (fn == "eval_fr" and rv[0] == "call" and rv[1].endswith("u256_to_fr") and len(rv[2]) == 1) else (rv if fn == "eval" else None)
+                good = False
+                if isinstance(core, tuple) and core:
+                    if core[0] == "call" and len(core[2]) == 2 and core[2] == (A, B) and re.search(r"::div$" if opn == "Idiv" else r"::rem$", core[1]):
+                        good = True
+                    if core[0] == "field" and core[2] == ("f", "0" if opn == "Idiv" else "1") and isinstance(core[1], tuple) and core[1][0] == "call" \
+                            and core[1][1].endswith("div_rem") and core[1][2] == (A, B):
+                        good = True
+                if not good:
+                    why = "for b != 0 the result is %s, specification the %s of the whole 256-bit values" % (sh(rv, 140), "quotient" if opn == "Idiv" else "remainder")
+            if why is None and (len(ps) != 2 or nz != 1):
+                why = "expected the two cases b == 0 / b != 0, found %d path(s)" % len(ps)
+            n += 1
+            ctx.check(why is None, "R19-5", "%s[%s] formula" % (fn, opn), "b == 0 -> 0; else %s of the whole values" % ("a div b" if opn == "Idiv" else "a rem b"),
+                      "%s::%s: %s" % (fn, opn, why), loc(it))
+    ctx.floor("integer-division-arms", n, 4)
+
+
 def check_guards(ctx, fb):
     n = 0
     for cls, names in (("Operation", OPS),):
@@ -605,18 +664,43 @@ def check_guards(ctx, fb):
         if not bounded:
             ok, why = False, "limb shift reached without the `b >= MODULUS_BIT_SIZE -> 0` guard"
     ctx.check(ok, "R19-4", "shl guard", "shift amount below the field bit size before shifting", why, loc(it))
-    # shr: the shift amount is truncated to its low byte; that read must be dominated by `b < K`, K <= 256
+    # shr: the shift amount is read in truncated form (its low byte, or its low 64-bit limb); every such read must be dominated by a
+    # bound on the WHOLE value that makes the truncation exact (b < K with K <= 256 for the byte, K <= 2^64 for the limb): a guard
+    # that itself looks at the truncated value lets amounts >= 2^64 with a small low limb through as small shifts
     it = fb.need(G + "shr")
     eng = Engine(fb, inline=lambda i: False, max_paths=20000)
     ok, why, n = True, "", 0
+
+    def is_bigint_of_b(t):
+        return isinstance(t, tuple) and t and t[0] == "call" and re.search(r"into_bigint$|as_limbs$|into_limbs$", t[1]) and t[2] == (P(2),)
+
+    def truncating_reads(p):
+        out = []
+        for c in p.calls(r"BigInteger>::to_bytes_le$"):
+            if c[2] and is_bigint_of_b(c[2][0]):
+                out.append(("low byte", 256, c[3]))
+        seen = set()
+        for e in p.trace:
+            if e[0] not in ("cond", "call", "oblig"):
+                continue
+            for x in subterms(("t",) + tuple(y for y in e[1:3] if isinstance(y, tuple))):
+                if x[0] == "idx" and len(x) == 3 and x not in seen and cint(x[2]) is not None:
+                    base = x[1]
+                    if isinstance(base, tuple) and base and base[0] == "field" and base[2] == ("f", "0"):
+                        base = base[1]
+                    if is_bigint_of_b(base):
+                        seen.add(x)
+                        out.append(("64-bit limb %d" % cint(x[2]), 1 << 64, e[3] if e[0] != "oblig" else e[3]))
+        return out
     for p in eng.run(it):
-        tr = [c for c in p.calls(r"BigInteger>::to_bytes_le$") if c[2] and c[2][0][0] == "call" and c[2][0][2] == (P(2),)]
+        tr = truncating_reads(p)
         if not tr:
             continue
         n += 1
         bound = field_upper_bound(p, P(2))
-        if bound is None or bound > 256:
-            ok, why = False, "the shift amount is truncated to its low byte on a path where it is only known to be below %s (must be <= 256)" % bound
+        for what, width, site in tr:
+            if bound is None or bound > width:
+                ok, why = False, "the shift amount is read through its %s on a path where the whole value is only known to be below %s (must be <= %d for the truncation to be exact)" % (what, bound, width)
     ctx.check(ok and n > 0, "R19-4", "shr guard", "low-byte read of the shift amount dominated by b < 254 on %d path(s)" % n, why or "anchor: truncating read not found", loc(it))
 
 
@@ -627,6 +711,7 @@ def run(ctx):
     check_compare(ctx, fb)
     check_sinks(ctx, fb)
     check_guards(ctx, fb)
+    check_intdiv(ctx, fb)
     # fixtures
     fx = ctx.fb("fixtures")
     try:
